@@ -202,6 +202,11 @@ def run_case(cs):
                 os.remove(os.path.join(root, f))
                 affected["removed"].append(f)
                 muts.append(f"rm {f!r}")
+                if rng.random() < 0.25:
+                    # an empty folder takes the name of the removed file: the recorded file is gone all the same
+                    os.mkdir(os.path.join(root, f))
+                    muts.append(f"mkdir {f!r}")
+                    cs.count("removed_file_replaced_by_empty_folder")
         elif k == "added":
             par = rng.choice([""] + [x for x in rec_dirs if os.path.isdir(os.path.join(root, x))])
             n = world.gen_name(rng, rng.choice(["plain", "space", "uni", "xml", "zsep"]), ext=False) + ".new"
